@@ -27,7 +27,7 @@ RULE = ('cases = (correlation, evaluation temperature, property) triples. Correl
         'size, range kind, T_ref placement, T placement, property); non-trivial = the table has >= 2 points or T_ref/T lie '
         'outside the tabulated span.')
 ASSUMPTIONS = ['A-spline: InterpolatedUnivariateSpline interpolates the table; spline.integral is additive/antisymmetric (1e-10); '
-               'quad(spline/t) is additive and agrees with exact integration of the PPoly form (1e-6) — re-validated on every run',
+               'quad(spline/t) is additive and agrees with exact integration of the PPoly form (1e-5 of the scale; measured worst 1.4e-6) — re-validated on every run',
                'A-float: doubles are read as exact rationals; + - * / modelled exactly (DESIGN 2.3); tolerance 1e-9 x sum|terms|',
                'temperatures are positive inside the validity range (0 < range lower end), as for every shipped group']
 TRUSTED = ['modelled, not verified: ThermochemRawData.__init__/get_CpoR/get_SoR/get_HoRT, ThermochemIncomplete.__init__/'
@@ -88,10 +88,10 @@ def assumption_checks(ctx, acc, spec, rd):
         acc.see('integral_additive', abs(sp.integral(a, b) + sp.integral(b, c) - sp.integral(a, c)) / sc, 1e-10)
         acc.see('integral_antisymmetric', abs(sp.integral(a, b) + sp.integral(b, a)) / sc, 1e-10)
         acc.see('integral_vs_ppoly', abs(sp.integral(a, b) - L.exact_int(pp, a, b, False)) / sc, 1e-10)
-        sj = cmax * (abs(math.log(mx / mn)) + 1e-3)
+        sj = cmax * (abs(math.log(mx / mn)) + 1e-3) + 0.1      # + absolute part: QUADPACK's epsabs is 1.49e-8 per call
         jab, jbc, jac = L.quad_J(sp, a, b), L.quad_J(sp, b, c), L.quad_J(sp, a, c)
-        acc.see('quad_additive', abs(jab + jbc - jac) / sj, 1e-6)
-        acc.see('quad_vs_ppoly', abs(jab - L.exact_int(pp, a, b, True)) / sj, 1e-6)
+        acc.see('quad_additive', abs(jab + jbc - jac) / sj, 1e-5)
+        acc.see('quad_vs_ppoly', abs(jab - L.exact_int(pp, a, b, True)) / sj, 1e-5)
 
 
 def expected_mk(spec):
@@ -171,6 +171,12 @@ def property_oracle(ctx, spec, obj, rd, results, inp0, do_perm):
                 bad('in-range evaluation of %s does not return a finite number' % L.GETTER[w], T, 'finite value', o)
             if not need and o.get('err') != 'incomplete':
                 bad('%s without the reference value does not raise IncompleteDataError' % L.GETTER[w], T, 'incomplete', o)
+    # outside the range nothing is returned
+    for T in results:
+        if not (lo <= T <= hi):
+            for w in L.WHICH:
+                if 'ok' in results[T][w]:
+                    bad('%s returns a value outside the valid range' % L.GETTER[w], T, 'error', results[T][w])
     # T1 reference values (the reference temperature is always evaluated: it is in `results`)
     if tref in results and tref > 0:
         o = results[tref]
@@ -191,7 +197,7 @@ def property_oracle(ctx, spec, obj, rd, results, inp0, do_perm):
             lhs = b['s']['ok'] - a['s']['ok']
             rhs = si.int_cp_over_t(T1, T2)
             sc = abs(sref) + cmax * (abs(math.log(hi / lo)) + 1e-3) + abs(rhs)
-            if abs(lhs - rhs) > 1e-6 * sc + 1e-300:
+            if abs(lhs - rhs) > 1e-5 * (sc + 0.1):       # measured QUADPACK error on C2 splines: up to ~1.4e-6 of the scale
                 bad('change of S/R between two temperatures is not the integral of Cp/(R T)', [T1, T2], rhs, lhs)
     # T4 tabulated Cp reproduced; constant continuation outside the span
     for t, c in spec['pts']:
@@ -293,6 +299,9 @@ def grid(ctx, batch, acc, reps):
                     temps.setdefault(lo, 'range_lo')
                     temps.setdefault(hi, 'range_hi')
                     temps[tref] = 'tref'
+                    # outside the range: the error class (range error / its conversion by the incomplete-data wrapper)
+                    temps.setdefault(L.nexta(lo, False) if rep % 2 else lo - 7.5, 'outside_below')
+                    temps.setdefault(L.nexta(hi, True) if rep % 2 else hi + 40.0, 'outside_above')
                     ctx.count('grid_objects')
                     ctx.count('size_%02d' % n)
                     ctx.count('tref_' + pact)
